@@ -1,6 +1,7 @@
 from operator import xor
 
 import numpy as np
+from pb_bss import _verif
 from dataclasses import dataclass
 from pb_bss.distribution.mixture_model_utils import (
     estimate_mixture_weight,
@@ -136,6 +137,7 @@ class VMFMMTrainer:
         for iteration in range(iterations):
             if model is not None:
                 affiliation = model.predict(y)
+                if _verif.enabled: _verif.emit('estep', trainer=self, iteration=iteration, model=model, affiliation=affiliation, quadratic_form=None)
 
             model = self._m_step(
                 y,
@@ -145,6 +147,7 @@ class VMFMMTrainer:
                 min_concentration=min_concentration,
                 max_concentration=max_concentration,
             )
+            if _verif.enabled: _verif.emit('mstep', trainer=self, iteration=iteration, model=model, affiliation=affiliation, quadratic_form=None)
 
         return model
 
